@@ -2,6 +2,7 @@ package main
 
 import (
 	"fmt"
+	"sync"
 	"go/token"
 	"go/types"
 	"sort"
@@ -65,7 +66,42 @@ type Exec struct {
 	loopRefs  map[*ssa.BasicBlock]*State
 }
 
+var addrOnce sync.Once
+
+func registerAddressable(prog *Program, ctr *Contracts) {
+	addrOnce.Do(func() {
+		for i, d := range ctr.Addressable {
+			parts := strings.SplitN(d, ".", 2)
+			if len(parts) != 2 {
+				panic(oos("bad addressable declaration %q", d))
+			}
+			tn, ok := prog.Pkg.Types.Scope().Lookup(parts[0]).(*types.TypeName)
+			if !ok {
+				panic(oos("addressable: no type %s", parts[0]))
+			}
+			st, ok := tn.Type().Underlying().(*types.Struct)
+			if !ok {
+				panic(oos("addressable: %s is not a struct", parts[0]))
+			}
+			found := false
+			for j := 0; j < st.NumFields(); j++ {
+				if st.Field(j).Name() == parts[1] {
+					key := typeKey(tn.Type()) + "." + parts[1]
+					addressable[key] = i
+					addressableFieldType[key] = typeKey(st.Field(j).Type())
+					addressableElem[typeKey(st.Field(j).Type())] = true
+					found = true
+				}
+			}
+			if !found {
+				panic(oos("addressable: no field %s in %s", parts[1], parts[0]))
+			}
+		}
+	})
+}
+
 func newExec(prog *Program, ctr *Contracts, fn *ssa.Function, fc *FuncContract) *Exec {
+	registerAddressable(prog, ctr)
 	return &Exec{prog: prog, ctr: ctr, sc: newScript(), top: fn, fc: fc,
 		hsort: map[string]Sort{}, written: map[string]bool{}, typeCache: map[string]types.Type{},
 		tags: map[string]int{}, strs: map[string]int{"": 0}, abstr: map[string]bool{}, externs: map[string]bool{},
@@ -215,6 +251,11 @@ func (ex *Exec) leafFacts(st *State, l Leaf, t string) []string {
 	case "str":
 		return []string{mkApp(">=", t, "0")}
 	case "ref", "iface.ref":
+		if l.Kind == "ref" && l.Typ != nil && len(addressable) > 0 {
+			if pt, ok := l.Typ.Underlying().(*types.Pointer); ok && addressableElem[typeKey(pt.Elem())] {
+				return []string{mkApp("<=", t, ex.get(st, allocKey, SInt))}
+			}
+		}
 		return []string{mkApp("<=", "0", t), mkApp("<=", t, ex.get(st, allocKey, SInt))}
 	case "slice.arr":
 		return []string{mkApp("<=", "0", t), mkApp("<=", t, ex.get(st, allocKey, SInt))}
@@ -895,7 +936,7 @@ func (fr *Frame) candidates(l *Loop, phiVals map[*ssa.Phi]Val, st *State) []cand
 			if cur == v.ref {
 				continue
 			}
-			t := fmt.Sprintf("(forall ((o Int)) (! (=> (and (<= 0 o) (<= o %s)) (= (select %s o) (select %s o))) :pattern ((select %s o))))", v.alloc, cur, v.ref, cur)
+			t := fmt.Sprintf("(forall ((o Int)) (! (=> (and (<= %s o) (<= o %s)) (= (select %s o) (select %s o))) :pattern ((select %s o))))", objLowerBound(k, v.alloc), v.alloc, cur, v.ref, cur)
 			out = append(out, candidate{name, t})
 		}
 	}
@@ -1173,4 +1214,20 @@ func (fr *Frame) innermostLoopCtx(b *ssa.BasicBlock) *LoopCtx {
 		return nil
 	}
 	return fr.loopCtx[best.head]
+}
+
+// objLowerBound: the smallest reference of an object that exists when the
+// allocation counter is alloc - 0 normally; for heap arrays of a type that has
+// virtual (embedded, addressable) objects, the most negative virtual reference.
+func objLowerBound(key, alloc string) string {
+	if len(addressable) == 0 || !strings.HasPrefix(key, "H.") {
+		return "0"
+	}
+	rest := key[2:]
+	for ft := range addressableElem {
+		if strings.HasPrefix(rest, ft+".") {
+			return fmt.Sprintf("(- (* (+ %s 1) %d))", alloc, len(addressable))
+		}
+	}
+	return "0"
 }
